@@ -39,7 +39,7 @@ DATETIME_RE = re.compile(r'^t:(\d{4}-\d{2}-\d{2}T' \
                          r'\d{2}:\d{2}(:?:\d{2}(:?\.\d+)?)' \
                          r'(:?[zZ]|[+\-]\d+:?\d*))(:? ([A-Za-z\-+_0-9]+))?$',
                          flags=re.DOTALL)
-URI_RE = re.compile(r'u:(.+)$', flags=re.DOTALL)
+URI_RE = re.compile(r'u:(.*)$', flags=re.DOTALL)
 BIN_RE = re.compile(r'b:(.+)$', flags=re.DOTALL)
 COORD_RE = re.compile(r'c:(-?\d*\.?\d*),(-?\d*\.?\d*)$',
                       flags=re.DOTALL)
